@@ -6,7 +6,7 @@
 From Coq Require Import List String Ascii Bool Arith ZArith.
 From Helm Require Import Common.Assoc Common.Strs Values.Tree Values.Coalesce
   Misc.Panics Misc.PanicsStorage Misc.PanicsDeps Misc.PanicsIndex Misc.PanicsSort Misc.PanicsSchema
-  Misc.PanicsStrvalsLex Misc.PanicsStrvals Misc.PanicsRec Misc.PanicsGate Misc.PanicsCoalesce Gen.C20Tables.
+  Misc.PanicsStrvalsLex Misc.PanicsStrvals Misc.PanicsRec Misc.PanicsGate Misc.PanicsCoalesce Misc.PanicsSmall Gen.C20Tables.
 Import ListNotations.
 Local Open Scope string_scope.
 
@@ -436,6 +436,34 @@ Definition dir_run (nodes : list node) : cls * list string :=
 Definition dir_eqb (a b : cls * list string) : bool :=
   cls_eqb (fst a) (fst b) && list_eqb String.eqb (snd a) (snd b).
 
+(* ---------- plugin.yaml -> LoadDir -> PrepareCommand ---------- *)
+Definition plugin_run (goos goarch : string) (md : option pmeta) (extra : list string)
+  : cls * option (string * list string) :=
+  match load_and_prepare eq_fold_ascii goos goarch (fun s => s) split_space_s alias_ok md extra with
+  | Ok r => (COk, Some r)
+  | Err => (CErr, None)
+  | Panic _ => (CPanic, None)
+  end.
+
+Definition plugin_eqb (a b : cls * option (string * list string)) : bool :=
+  cls_eqb (fst a) (fst b) &&
+  match snd a, snd b with
+  | None, None => true
+  | Some (m1, a1), Some (m2, a2) => String.eqb m1 m2 && list_eqb String.eqb a1 a2
+  | _, _ => false
+  end.
+
+(* ---------- provenance: parseMessageBlock ---------- *)
+Definition prov_verdict (tbl : list (string * (bool * bool))) (second : bool) (p : string) : bool :=
+  match aget p tbl with
+  | Some v => if second then snd v else fst v
+  | None => false
+  end.
+
+Definition provmsg_run (data : string) (tbl : list (string * (bool * bool))) : cls :=
+  classify (parse_message_block string (prov_verdict tbl false) (prov_verdict tbl true) 2
+              (split_sep (String (ascii_of_nat 10) ("..." ++ String (ascii_of_nat 10) EmptyString)) data)).
+
 (* ---------- cases ---------- *)
 Inductive case :=
 | CStorage (st : list (sobj (option srel))) (ops : list sop) (obs : list sobs)
@@ -447,6 +475,8 @@ Inductive case :=
 | CStrvals (m : pmode) (input : string) (obs : cls)
 | CRec (prog : list rprog) (defined : list string) (obs : cls * Z)
 | CDir (nodes : list node) (obs : cls * list string)
+| CPlugin (goos goarch : string) (md : option pmeta) (extra : list string) (obs : cls * option (string * list string))
+| CProvMsg (data : string) (tbl : list (string * (bool * bool))) (obs : cls)
 | CExplore (obs : cls).          (* raw / mutated input on the real code only: nothing to compare,
                                     the runtime oracle judges it *)
 
@@ -460,6 +490,8 @@ Definition case_ok (c : case) : bool :=
   | CStrvals m input obs => cls_eqb (strvals_run m input) obs
   | CRec prog defined obs => rec_eqb (rec_run prog defined) obs
   | CDir nodes obs => dir_eqb (dir_run nodes) obs
+  | CPlugin goos goarch md extra obs => plugin_eqb (plugin_run goos goarch md extra) obs
+  | CProvMsg data tbl obs => cls_eqb (provmsg_run data tbl) obs
   | CExplore _ => true
   end.
 
